@@ -154,6 +154,13 @@ func runC11(r *Run) {
 	// "produces precisely the intended state change": every field of the state an applier returns
 	// comes from its prescribed source (provenance cells, shared with C03)
 	r.checkProvenance(P, nil)
+	// ... and the document / commitments / deactivation flag of that state are those the statement prescribes for
+	// the operation type and exit (effect table, shared with C03): a recover rebuilds the document from nothing
+	r.checkEffectTable(P, false)
+	// "once anchored inside its window": the appliers re-parse an anchored request in batch mode, so that the rules
+	// that only apply at submission time (the anchoring window against the node's clock) are not re-run at
+	// resolution, when the window has long closed
+	r.checkApplierBatchMode(P)
 	// consumer functions: parser + applier packages
 	consumers := r.P.SubjectFuncs(pkgParser, pkgApplier)
 	cells := 0
@@ -370,4 +377,34 @@ func derefNamed(t types.Type) types.Type {
 		return p.Elem()
 	}
 	return t
+}
+
+// checkApplierBatchMode: every call of a Parse<Type>Operation in the applier package passes the constant true as
+// batch flag.
+func (r *Run) checkApplierBatchMode(P string) {
+	appl := r.applierFuncs(P + ".batchmode")
+	n := 0
+	var bad []string
+	for _, role := range opRoles {
+		f := appl[role.Type]
+		if f == nil {
+			continue
+		}
+		for _, fr := range r.frames(f, 2) {
+			for _, c := range r.callsIn(fr.Fn, role.ParseOp) {
+				a := c.Common().Args
+				if len(a) == 0 {
+					continue
+				}
+				n++
+				k, isC := a[len(a)-1].(*ssa.Const)
+				if !isC || k.Value == nil || k.Value.String() != "true" {
+					bad = append(bad, fmt.Sprintf("%s calls %s with batch = %s at %s", core.FuncName(fr.Fn), role.ParseOp, fr.Term(a[len(a)-1]), r.P.Pos(c.Pos())))
+				}
+			}
+		}
+	}
+	sort.Strings(bad)
+	r.R.Check(len(bad) == 0 && n >= 4, P+".applier.batchmode", "E13 ArgIs: the appliers parse anchored requests with batch = true", "operationapplier apply*Operation", "pkg/versions/1_0/operationapplier/operationapplier.go",
+		"with batch = false the submission-time rules (anchoring window against the current time) are re-evaluated on every resolution: an operation anchored inside its window stops taking effect once the window has closed", fmt.Sprintf("%d parse calls, all in batch mode", n), strings.Join(bad, "; "))
 }
